@@ -9,7 +9,7 @@ Driver for the `offreader` correspondence family (C16).
   arrive <idx> <id> <inline|blocking> <notify 0|1> <ec>
       -> <idx> admitted <id> ; running N | <idx> resp <id> <ec> ; running N | <idx> dropped ; running N
          | <idx> none ; running N | <idx> stalled ; running N
-  exit <idx> <id> <ret|err N|panic>
+  exit <idx> <id> <ret|err N|panic [payload kind]>
       -> <idx> resp <id> <ec> ; running N | <idx> none ; running N | <idx> unknown ; running N
 `running` counts handlers that are executing, whether off the reader or (wrong facts only) on it.
 -/
@@ -60,6 +60,7 @@ def step (d : DSt) (ws : List String) : DSt × String :=
     let k : Option ExitKind := match kind with
       | ["ret"] => some .ret
       | ["panic"] => some .panic
+      | ["panic", payloadKind] => if payloadKind.isNat then some .panic else none   -- what the unwinding carries is not modelled
       | ["err", c] => if c.isNat then some (.err (natOf c)) else none
       | _ => none
     match k, id.isNat with
